@@ -137,3 +137,22 @@ func init() {
 		return 0
 	}
 }
+
+func init() {
+	devHooks["ifs"] = func(p *Prog, fnPat, untr string) int {
+		for _, fn := range p.FuncsMatching(fnPat) {
+			for _, b := range fn.Blocks {
+				if ret, ok := lastInstr(b).(*ssa.Return); ok {
+					fmt.Printf("return in block %d: %v\n", b.Index, ret.Results)
+					for d := b.Idom(); d != nil; d = d.Idom() {
+						if iff, ok := lastInstr(d).(*ssa.If); ok {
+							fmt.Printf("   dom if (block %d): %s\n", d.Index, Desc(iff.Cond))
+						}
+					}
+				}
+			}
+			break
+		}
+		return 0
+	}
+}
